@@ -862,6 +862,12 @@ def depends_on(c, chk):
     chk.rule('R1.9', 'value tokens are converted exactly or refused (the rules of C04)')
     from . import c12
     chk.rule('R1.10', 'under the ignore-unknown flag the language has no undeclared names: such items are skipped, silently, whatever their shape (the rules of C12)')
+    # R1.12: "unmentioned options keep their declared defaults": the defaults a context works with are those of the declaration
+    from . import c16
+    chk.rule('R1.12', 'the private copy of the schema carries every declared default and annotation over (NULL only where the declaration has NULL; rule R16.1 of C16)')
+    sub16 = report.SubCheck(chk, 'R1.12', 'C16', only=('R16.1',))
+    c16.run(c, sub16)
+    sub16.done('schema copy')
     for rid, mod, pid, label in (('R1.8', c03, 'C03', 'token decoding'), ('R1.9', c04, 'C04', 'value conversion'), ('R1.10', c12, 'C12', 'undeclared items')):
         sub = report.SubCheck(chk, rid, pid)
         mod.run(c, sub)
